@@ -163,6 +163,19 @@ def run_unit(u, desc, tier, seed):
                     posf = concretize(model, kind, data)
                     ok, text = numeric(no, cc, posf, name if by_name else None)
                     return ok, {'no': no, 'cc': cc, 'pos': posf, 'name': name if by_name else None}, text
+                if kind == 'family' and u.paths % 3 == 0:
+                    # translator validation at a solver witness of this path: the real multiplicity on floats returns this leaf's value
+                    stw, mw, _ = smt.solve(ctx.base() + leaf['pc'], timeout_s=5, cvc5_timeout_s=0)
+                    if stw == 'sat' and mw:
+                        posw = concretize(mw, kind, data)
+                        try:
+                            realv = structure.multiplicity(posw, sgno=no, cell_choice=cc)
+                            if int(realv) == int(got):
+                                u.validated += 1
+                            else:
+                                u.notes.append('witness %s of %s %s: real multiplicity %s, symbolic path %s' % (posw, tag, cname, realv, got))
+                        except Exception as ex:
+                            u.notes.append('witness replay failed: %r' % (ex,))
                 u.prove('C15/%s/%s' % (tag, cname), ctx.base() + leaf['pc'], z3.BoolVal(Fraction(int(got)) == want), replay=rp,
                         detail='%s %s (%s): multiplicity returned %s on this path, orbit-stabiliser count %s' % (tag, cname, 'by name' if by_name else 'by number', got, want),
                         timeout=30, cvc5_timeout=0, sample=(no in (14, 143) and ci < 2))
